@@ -297,7 +297,14 @@ def h_agg(nu: int, ns: int, no: int, ni: int) -> bool:
     for r in msgs:
         if agg.filter(r) is not True:
             return False
-    out = memfs.Recorder()
+    # as in codebasin/__main__.py the totals are logged through the very logger whose handler carries the aggregator as
+    # a filter, so every printed total passes through filter() again before the next one is formatted
+    class Loop(memfs.Recorder):
+        def warning(self, msg, *a, **k):
+            agg.filter(_Rec(logging.WARNING, msg))
+            memfs.Recorder.warning(self, msg)
+
+    out = Loop()
     agg.warn(out)
     lines = out.warnings()
     tot = {"all": 0, "user": 0, "system": 0}
